@@ -8,6 +8,8 @@ Exploration (model-guided): strings built along the token alphabets of the speci
     of valid settings with boundary values x language / locale / region choices x date_formats; invalid
     settings x arbitrary strings.  TLC (T_C02.tla) judges every recorded call."""
 
+import json
+
 from .. import core
 from ..c02gen import INVALID_SETTINGS, gen_formats, gen_string, settings_pool
 
@@ -38,8 +40,8 @@ def run(ctx):
     cases = core.replay_cases(ctx)
     if not cases:
         cases = []
-        pool = settings_pool(rng, 40 if ctx.quick() else 120)
-        n = 20000 if ctx.quick() else 1000000
+        pool = settings_pool(rng, 32 if ctx.quick() else 120)
+        n = 12000 if ctx.quick() else 1000000
         auto_pool = pool[:3]
         for _ in range(n):
             s = gen_string(rng)
@@ -86,7 +88,11 @@ def run(ctx):
                 if rng.random() < 0.3:
                     kw["date_formats"] = ["%Y-%m-%d"]
                 cases.append({"s": s, "kw": kw, "settings": dict(inv), "api": rng.choice(["ddp", "parse"]), "probe": False, "valid": False})
-    results = core.run_cases(ctx, "harness.lib", "call_parse", cases, chunk=500)
+    if not ctx.replay:
+        # cases that share a settings dict are executed by the same worker: the library rebuilds its regex
+        # caches for every new (settings, locale) pair, which dominates the cost otherwise
+        cases.sort(key=lambda c: (not c["valid"], json.dumps(c["settings"], sort_keys=True, default=str)))
+    results = core.run_cases(ctx, "harness.lib", "call_parse", cases, chunk=200, contiguous=True)
     records = []
     for i, (c, r) in enumerate(zip(cases, results)):
         records.append({"tid": i, "valid": c["valid"], "api": c["api"], "exc": r["exc"], "mro": r["mro"], "hasDate": bool(r["out"]),
